@@ -158,6 +158,50 @@ func Run(c *fw.Ctx) {
 		c.Nontrivial(1)
 	})
 	c.Scope("a:option-sets", "cases", cnt)
+	// (a') names longer than their fields: the 64-octet sname and 128-octet file fields stay NUL-terminated (the name is
+	// cut to the field's capacity - the normalisation C06 lists), everything behind them stays where it belongs
+	{
+		base := int64(1) << 40
+		k := int64(0)
+		for _, sl := range []int{63, 64, 65, 200} {
+			for _, fl := range []int{127, 128, 129, 300} {
+				p, _ := dhcpv4.New(dhcpv4.WithTransactionID(dhcpv4.TransactionID{1, 2, 3, 4}), dhcpv4.WithMessageType(dhcpv4.MessageTypeOffer))
+				p.ServerHostName = strings.Repeat("s", sl)
+				p.BootFileName = strings.Repeat("f", fl)
+				b := p.ToBytes()
+				c.Eval(1)
+				cut := func(n, capa int) int {
+					if n > capa {
+						return capa
+					}
+					return n
+				}
+				problem := ""
+				switch {
+				case len(b) < 300:
+					problem = fmt.Sprintf("encoding has %d bytes", len(b))
+				case string(b[44:44+cut(sl, 63)]) != strings.Repeat("s", cut(sl, 63)) || b[44+cut(sl, 63)] != 0 || b[107] != 0:
+					problem = fmt.Sprintf("sname field %x", b[44:108])
+				case string(b[108:108+cut(fl, 127)]) != strings.Repeat("f", cut(fl, 127)) || b[108+cut(fl, 127)] != 0 || b[235] != 0:
+					problem = fmt.Sprintf("file field %x", b[108:236])
+				case string(b[236:240]) != "\x63\x82\x53\x63":
+					problem = fmt.Sprintf("magic cookie position holds %x", b[236:240])
+				case b[240] != 53 || b[241] != 1 || b[242] != 2 || b[243] != 255:
+					problem = fmt.Sprintf("options area starts %x", b[240:244])
+				}
+				if problem != "" {
+					c.Report(fw.Violation{Fingerprint: "dhcpv4.ToBytes|layout|name-longer-than-its-field", Order: base + k, Scope: "a':over-long names",
+						Input:    fmt.Sprintf("OFFER with ServerHostName of %d octets and BootFileName of %d octets", sl, fl),
+						Observed: problem, Expected: "sname = the first 63 octets and a NUL, file = the first 127 octets and a NUL, then the magic cookie and the options",
+						Explain:  "a name that does not fit is cut to its NUL-terminated capacity; the fields behind it are not disturbed"})
+				} else {
+					c.Nontrivial(1)
+				}
+				k++
+			}
+		}
+		c.Scope("a':over-long names", "sname_len", "63, 64, 65, 200", "file_len", "127, 128, 129, 300", "cases", k)
+	}
 
 	// (b1) all permutations of k distinct updates, k = 1..6, several code sets
 	sets := [][]uint8{{1, 12, 53, 55, 82, 200}, {82, 54, 53, 3, 2, 1}, {254, 253, 100, 82, 81, 83}, {255, 82, 0, 1, 60, 61}}
